@@ -1,7 +1,7 @@
 (* C10 — a bad record is reported with its own record number and raw bytes. *)
 From Coq Require Import List Arith NArith ZArith.
 Require Import CU.model.Prim CU.model.Types CU.model.Codec CU.model.Block CU.model.Vbs CU.model.Iso CU.model.Ipm.
-Require Import CU.spec.FramingSpec CU.proofs.IpmProofs.
+Require Import CU.spec.FramingSpec CU.proofs.IpmProofs CU.proofs.IpmEvents.
 Import ListNotations.
 
 Section C10.
@@ -43,11 +43,23 @@ Theorem C10_oversize : forall blocked file goods ds L tail,
   seen blocked file = frames goods ++ be32 L ++ tail ->
   iread_all B maxlen cfg cd file blocked = Ok (ds, ErrData (length goods + 1) (be32 L)).
 Proof. exact (c10_oversize B Bpos maxlen maxlen_ok cfg cd). Qed.
+
+(* SEVERAL bad records in one file, read by a consumer that keeps the same reader after each data error (ievents:
+   next() until StopIteration, collecting records and data errors).  In a well-framed file, whatever number of records
+   fail to decode, record i yields its message or the data error whose record number is i and whose context data are
+   record i's own frame (outcome_of i r): an earlier bad record never shifts the number reported for a later one *)
+Theorem C10_every_bad_record : forall blocked file rs evs tail,
+  Forall (wf_rec maxlen) rs ->
+  Forall2 (fun ir e => outcome_of cfg cd (fst ir) (snd ir) = Some e) (numbered 1 rs) evs ->
+  seen blocked file = frames rs ++ be32 0 ++ tail ->
+  ievents B maxlen cfg cd file blocked = Ok evs.
+Proof. exact (c10_every_bad_record B Bpos maxlen maxlen_ok cfg cd). Qed.
 End C10.
 
 Print Assumptions C10_message_level.
 Print Assumptions C10_truncated.
 Print Assumptions C10_oversize.
+Print Assumptions C10_every_bad_record.
 
 (* a concrete run (B = 3, maximum record length 100, one LLVAR element, latin_1): the second record's LLVAR length
    prefix is "0x" — record 1 is delivered, then the data error names record 2 and carries its 4 + 25 raw bytes;
@@ -65,3 +77,17 @@ Example C10_example :
   | None => False
   end.
 Proof. vm_compute. repeat split; reflexivity. Qed.
+
+(* bad, good, bad: records 1 and 3 are reported as 1 and 3, record 2 is delivered between them *)
+Example C10_example_several :
+  match codec_named [108;97;116;105;110;95;49]%N with
+  | Some cd =>
+    let cfg := [(2, mkfc LLVAR (Some 0) PTStr [] PNone false)] in
+    let good := map byte_of_N [49;49;52;52; 64;0;0;0;0;0;0;0;0;0;0;0;0;0;0;0; 48;51; 49;50;51]%N in
+    let bad := map byte_of_N [49;49;52;52; 64;0;0;0;0;0;0;0;0;0;0;0;0;0;0;0; 48;120; 49;50;51]%N in
+    let d := [(KMTI, VStr [49;49;52;52]%N); (KDE 2, VStr [49;50;51]%N)] in
+    ievents 3 100 cfg cd (vbs_list_to_bytes 3 true [bad; good; bad]) true
+    = Ok [EvErr 1 (frame bad); EvRec d; EvErr 3 (frame bad)]
+  | None => False
+  end.
+Proof. vm_compute. reflexivity. Qed.
